@@ -72,7 +72,9 @@ func MultiBucket(fs afero.Fs, opts ...MultiOption) (*MultiBucketBackend, error) 
 		}
 		b.configOnly.metaFs = metaFs
 	}
-	b.metaStore = newMetaStore(b.configOnly.metaFs, modTimeFsCalc(fs))
+	b.metaStore = newMetaStore(b.configOnly.metaFs, modTimeFsCalc(fs), bucketsFs, func(bucket, object string) string {
+		return path.Join(bucket, object)
+	})
 
 	return b, nil
 }
